@@ -526,14 +526,15 @@ type GhostVar struct {
 
 type SpecDB struct {
 	Funcs     map[string]*FuncSpec
-	SpecFuncs map[string]*SpecFunc
+	SpecFuncs map[string]*SpecFunc // key: <package path>::<name>
+	SpecByName map[string][]*SpecFunc
 	Lemmas    []*Lemma
 	Ghosts    map[string]*GhostVar
 	Files     []string
 }
 
 func NewSpecDB() *SpecDB {
-	return &SpecDB{Funcs: map[string]*FuncSpec{}, SpecFuncs: map[string]*SpecFunc{}, Ghosts: map[string]*GhostVar{}}
+	return &SpecDB{Funcs: map[string]*FuncSpec{}, SpecFuncs: map[string]*SpecFunc{}, SpecByName: map[string][]*SpecFunc{}, Ghosts: map[string]*GhostVar{}}
 }
 
 var clauseKeywords = map[string]bool{"spec": true, "axiom": true, "lemma": true, "ghost": true, "func": true, "iface": true,
@@ -635,10 +636,11 @@ func (db *SpecDB) LoadSpecFile(path, pkg string, stripPrefix bool) error {
 				return fmt.Errorf("%s:%d: %v", path, s.n, err)
 			}
 			sf.Pkg, sf.File, sf.Line = pkg, path, s.n
-			if old, ok := db.SpecFuncs[sf.Name]; ok {
+			if old, ok := db.SpecFuncs[pkg+"::"+sf.Name]; ok {
 				return fmt.Errorf("%s:%d: spec %s already defined at %s:%d", path, s.n, sf.Name, old.File, old.Line)
 			}
-			db.SpecFuncs[sf.Name] = sf
+			db.SpecFuncs[pkg+"::"+sf.Name] = sf
+			db.SpecByName[sf.Name] = append(db.SpecByName[sf.Name], sf)
 		case "axiom", "lemma":
 			k := strings.Index(s.rest, ":")
 			if k < 0 {
@@ -837,4 +839,20 @@ func parseSpecFuncDecl(s string) (*SpecFunc, error) {
 		sf.BodyTxt = body
 	}
 	return sf, nil
+}
+
+// LookupSpec resolves a spec function name as seen from package pkg: the package's own definition first,
+// otherwise the unique definition of that name anywhere.
+func (db *SpecDB) LookupSpec(name, pkg string) (*SpecFunc, error) {
+	if sf, ok := db.SpecFuncs[pkg+"::"+name]; ok {
+		return sf, nil
+	}
+	l := db.SpecByName[name]
+	switch len(l) {
+	case 0:
+		return nil, fmt.Errorf("unknown spec function %q", name)
+	case 1:
+		return l[0], nil
+	}
+	return nil, fmt.Errorf("spec function %q is defined in several packages; define it in %s or rename", name, pkg)
 }
